@@ -130,7 +130,10 @@ def judge_c04(y, ref, exact, check_dtype, out=None):
                     lay = node._layer()
                     for k, t in lay.items():
                         o = owner.get(k)
-                        if o is not None and o[0] != node._name and repr(o[1]) != repr(t):
+                        # (an Alias that forwards a key to where the same layer's value
+                        # now lives is not a second definition of a computation; whether
+                        # equal keys always carry equal VALUES is C06's registry check)
+                        if o is not None and o[0] != node._name and repr(o[1]) != repr(t) and "Alias" not in (type(o[1]).__name__, type(t).__name__):
                             return ("key-defined-twice", f"opt={opt}", f"key {k} defined by layers {o[0]} and {node._name} with different tasks")
                         owner[k] = (node._name, t)
                 if out is not None and opt and type(low).__name__ == "RootAlias":
